@@ -210,6 +210,8 @@ pub struct FinalRes {
     pub bytes_read: u64,
     pub bytes_written: u64,
     #[serde(default)]
+    pub hard_faulted: Vec<String>,
+    #[serde(default)]
     pub memo_rule_lookups: u64,
     #[serde(default)]
     pub memo_rule_forced: u64,
